@@ -489,6 +489,21 @@ def mon_c14(h, obs):
                     why = "self-transfer" if selfx else ("negative-amount" if neg else "other")
                     hits.append(Hit(f"C14/value-created/{why}",
                                     f"sum of balances grew by {s1 - s0} in block {b.h}", detail=b.op))
+                # fees leave the sender and reach the admins: nothing but the rounding of the split (at most nadm-1 units per
+                # transaction) and what a successful transfer hands to an account outside the observed set may leave the sum
+                if not any(t.kind not in ("xfer", "ibtp", "bvm") for t in b.txs) and len(b.txs) == len(b.rcs):
+                    out = 0
+                    for t, rc in zip(b.txs, b.rcs):
+                        if t.kind == "xfer" and rc.ok and t.to not in cur:
+                            try:
+                                out += max(0, int(t.amt))
+                            except ValueError:
+                                pass
+                    lost = s0 - s1 - out
+                    if lost > (nadm - 1) * len(b.txs):
+                        starved = any((not rc.ok) and rc.ret == "fee" and (t.frm if t.kind == "xfer" else (t.signer or "")).startswith("adm") for t, rc in zip(b.txs, b.rcs))
+                        hits.append(Hit("C14/value-destroyed/" + ("admin-sender-cannot-pay" if starved else "other"),
+                                        f"{lost} units left the observed accounts in block {b.h} and reached no admin (allowed rounding loss: {(nadm - 1) * len(b.txs)})", detail=b.op))
                 # exactness for single-transfer blocks between observed accounts
                 if len(b.txs) == 1 and b.txs[0].kind == "xfer" and len(b.rcs) == 1:
                     t, rc = b.txs[0], b.rcs[0]
